@@ -31,9 +31,12 @@ Print Assumptions C05_forecast_invariant_under_joint_rescaling.
 Theorem C05_bounds_rejected_iff : forall M0 M1 tau0 tau1,
   Bounds_post_init M0 M1 tau0 tau1 = None <-> (M1 <= M0 \/ tau1 <= tau0).
 Proof.
-  intros. unfold Bounds_post_init.
-  destruct (Rle_dec M1 M0); [split; auto|]. destruct (Rle_dec tau1 tau0); [split; auto|].
-  split; [discriminate|intros [H|H]; lra].
+  intros. unfold Bounds_post_init.     (* the source tests `not lower < upper` (which also rejects NaN limits in floating point) *)
+  destruct (Rlt_dec M0 M1) as [HM|HM]; cbn [negb].
+  - destruct (Rlt_dec tau0 tau1) as [Ht|Ht]; cbn [negb].
+    + split; [discriminate | intros [H|H]; lra].
+    + split; [intros _; right; lra | reflexivity].
+  - split; [intros _; left; lra | reflexivity].
 Qed.
 Print Assumptions C05_bounds_rejected_iff.
 
